@@ -30,7 +30,14 @@ import (
 // ---------------------------------------------------------------------------------------------
 
 func c09DirectivesEval(f []string) (string, []string) {
-	return strings.Join(casket.ValidDirectives("http"), ","), []string{"list"}
+	// the list the loader iterates over, and which of its entries have a plugin registered
+	var reg []string
+	for _, d := range casket.ValidDirectives("http") {
+		if _, err := casket.DirectiveAction("http", d); err == nil {
+			reg = append(reg, d)
+		}
+	}
+	return strings.Join(casket.ValidDirectives("http"), ",") + "#" + strings.Join(reg, ","), []string{"list"}
 }
 
 // ---------------------------------------------------------------------------------------------
@@ -862,6 +869,12 @@ func c09Scenarios() []c09Scenario {
 		}
 		return "0"
 	}
+	logHas := func(want string) func(*httptest.ResponseRecorder, string) string {
+		return func(_ *httptest.ResponseRecorder, logFile string) string {
+			b, _ := os.ReadFile(logFile)
+			return flag(strings.TrimSpace(string(b)) == want)
+		}
+	}
 	return []c09Scenario{
 		{"rewrite-before-basicauth", "rewrite", "basicauth", [2]string{"rewrite /open /secret/s.txt", "basicauth /secret user pass"},
 			c09Req{"GET", "/open", nil, ""}, status},
@@ -890,6 +903,41 @@ func c09Scenarios() []c09Scenario {
 		{"gzip-around-proxy", "gzip", "proxy", [2]string{"gzip {\n\tmin_length 1\n}", "proxy /api @BACKEND@"},
 			c09Req{"GET", "/api/x", [][2]string{{"Accept-Encoding", "gzip"}}, ""},
 			func(rec *httptest.ResponseRecorder, _ string) string { return flag(rec.Header().Get("Content-Encoding") == "gzip") }},
+		// rewriters before access
+		{"ext-before-basicauth", "ext", "basicauth", [2]string{"ext .txt", "basicauth /secret/s.txt user pass"},
+			c09Req{"GET", "/secret/s", nil, ""}, status},
+		{"tryfiles-before-basicauth", "tryfiles", "basicauth", [2]string{"tryfiles {path} /secret/s.txt", "basicauth /secret user pass"},
+			c09Req{"GET", "/no-such-file", nil, ""}, status},
+		{"rewrite-before-internal", "rewrite", "internal", [2]string{"rewrite ^/pub$ /internal/x.txt", "internal /internal"},
+			c09Req{"GET", "/pub", nil, ""}, status},
+		// access before content
+		{"redir-before-proxy", "redir", "proxy", [2]string{"redir /api/x /a.txt 302", "proxy /api @BACKEND@"},
+			c09Req{"GET", "/api/x", nil, ""}, status},
+		{"status-before-browse", "status", "browse", [2]string{"status 418 /dir", "browse /dir"},
+			c09Req{"GET", "/dir/", nil, ""}, status},
+		// error pages around a content handler whose backend is missing (502)
+		{"errors-around-fastcgi", "errors", "fastcgi", [2]string{"errors {\n\t502 @ROOT@/404.html\n}", "fastcgi /fcgi 127.0.0.1:9"},
+			c09Req{"GET", "/fcgi/x.php", nil, ""},
+			func(rec *httptest.ResponseRecorder, _ string) string {
+				return flag(rec.Code == 502 && strings.Contains(rec.Body.String(), "custom not found page"))
+			}},
+		// the access log around everything: a line is written / carries what was sent
+		{"log-around-rewrite", "log", "rewrite", [2]string{"log /old @LOG@ \"{status}\"", "rewrite ^/old$ /a.txt"},
+			c09Req{"GET", "/old", nil, ""}, logHas("200")},
+		{"log-around-basicauth", "log", "basicauth", [2]string{"log /secret @LOG@ \"{status}\"", "basicauth /secret user pass"},
+			c09Req{"GET", "/secret/s.txt", nil, ""}, logHas("401")},
+		{"log-around-redir", "log", "redir", [2]string{"log /go @LOG@ \"{status}\"", "redir /go /a.txt 302"},
+			c09Req{"GET", "/go", nil, ""}, logHas("302")},
+		{"log-around-errors", "log", "errors", [2]string{"log / @LOG@ \"{status} {size}\"", "errors {\n\t404 @ROOT@/404.html\n}"},
+			c09Req{"GET", "/nonexistent", nil, ""}, logHas("404 22")},
+		{"log-around-gzip", "log", "gzip", [2]string{"log / @LOG@ \"{status} {size}\"", "gzip"},
+			c09Req{"GET", "/big.txt", [][2]string{{"Accept-Encoding", "gzip"}}, ""},
+			func(rec *httptest.ResponseRecorder, logFile string) string {
+				b, _ := os.ReadFile(logFile)
+				return flag(rec.Header().Get("Content-Encoding") == "gzip" && strings.TrimSpace(string(b)) == fmt.Sprintf("200 %d", rec.Body.Len()))
+			}},
+		{"log-around-browse", "log", "browse", [2]string{"log /dir @LOG@ \"{status}\"", "browse /dir"},
+			c09Req{"GET", "/dir/", nil, ""}, logHas("200")},
 	}
 }
 
